@@ -1614,5 +1614,53 @@ theorem checkChannelsMatch_ok_iff (old new : ChanCfg) (eom : Bool) :
   cases eom <;> cases a1 <;> cases a2 <;> cases a3 <;> cases a4 <;> cases a5 <;> cases a6 <;> cases a7 <;>
     cases a8 <;> cases a9 <;> cases g <;> decide
 
+/-! ### device-level consequences -/
+
+theorem timeline_erase (s : SeqState) : timeline (erase s) = timeline s := by
+  unfold timeline
+  simp only [erase_chans, List.map_map, erase_refs, erase_measured]
+  rfl
+
+
+/-- A pair of channels that a complete strict comparison accepts. -/
+def pairOk (params : List String) (a b : ChanCfg) : Bool :=
+  retargetWF a && retargetWF b &&
+    ((a.eom.isNone && b.eom.isNone && strictMatch params false a b) ||
+     (a.eom.isSome && strictMatch params true a b && agreeOn dynamicFields a b))
+
+def listOk (params : List String) (l₁ l₂ : List ChanCfg) : Bool :=
+  l₁.length == l₂.length && (l₁.zip l₂).all fun (a, b) => pairOk params a b
+
+theorem timing_of_pairOk {params samples : List String} (h : strictMissing params samples = [])
+    {a b : ChanCfg} (hp : pairOk params a b = true) : timing a = timing b := by
+  simp only [pairOk, Bool.and_eq_true, Bool.or_eq_true] at hp
+  obtain ⟨⟨wa, wb⟩, hc⟩ := hp
+  rcases hc with ⟨⟨ha, hb⟩, hm⟩ | ⟨⟨ha, hm⟩, hd⟩
+  · have := strictMatch_sound (covers_of_missing_nil h) wa wb hm
+    have ea : noEom a = a := by
+      cases a
+      simp only [noEom, ChanCfg.mk.injEq, true_and, and_true]
+      simp only [Option.isNone_iff_eq_none] at ha
+      exact ha.symm
+    have eb : noEom b = b := by
+      cases b
+      simp only [noEom, ChanCfg.mk.injEq, true_and, and_true]
+      simp only [Option.isNone_iff_eq_none] at hb
+      exact hb.symm
+    rwa [ea, eb] at this
+  · exact strictMatch_sound_eom (covers_of_missing_nil h) wa wb hm ha hd
+
+theorem map_timing_of_listOk {params samples : List String} (h : strictMissing params samples = []) :
+    ∀ {l₁ l₂ : List ChanCfg}, listOk params l₁ l₂ = true → l₁.map timing = l₂.map timing
+  | [], [], _ => rfl
+  | [], _ :: _, hl => by simp [listOk] at hl
+  | _ :: _, [], hl => by simp [listOk] at hl
+  | a :: l₁, b :: l₂, hl => by
+    simp only [listOk, List.length_cons, List.zip_cons_cons, List.all_cons, Bool.and_eq_true, beq_iff_eq,
+      Nat.add_right_cancel_iff] at hl
+    have ih : l₁.map timing = l₂.map timing :=
+      map_timing_of_listOk h (by simp only [listOk, Bool.and_eq_true, beq_iff_eq]; exact ⟨hl.1, hl.2.2⟩)
+    simp only [List.map_cons, timing_of_pairOk h hl.2.1, ih]
+
 end Switch
 end Pulser
